@@ -384,7 +384,10 @@ def classify(h, r, prop=None):
         ign = [c for c in checks if c['status'] == 'Failure' and re.search(h.ignore, check_key(c))]
         r['ignored'] = [check_key(c) for c in ign]
         checks = [c for c in checks if c not in ign]
+    elsewhere = []
     if prop and prop != 'ALL':
+        # a failing assertion tagged for other properties does not count for this one (it is reported by their checks)
+        elsewhere = [c for c in checks if c['status'] == 'Failure' and not attributed(c, prop)]
         checks = [c for c in checks if c['status'] != 'Failure' or attributed(c, prop)]
     st = r['status']
     err = r.get('error', {})
@@ -400,6 +403,9 @@ def classify(h, r, prop=None):
         return 'inconclusive', [], ['no checks reported (%s): time-out, out of memory or CBMC error' % et]
     if st != 'Success' and h.ignore and r.get('ignored') and not failing:
         st = 'Success'
+    if st != 'Success' and elsewhere and not failing:
+        st = 'Success'
+        notes.append('failing checks belong to other properties: ' + '; '.join(sorted(set(c.get('description', '')[:60] for c in elsewhere)))[:300])
     if real_fail:
         return 'fail', real_fail, notes
     if unwind_fail:
